@@ -48,6 +48,7 @@ from harness import vloop
 from harness.rig import Rig
 
 BIG = 10 ** 6
+PT_LIMIT = 400    # max_size of the newline framer of the rpc sessions (every complete message is shorter)
 
 
 class StallTransport(FT.FakeTransport):
@@ -182,6 +183,12 @@ class World:
                         hid = args[0] if args else -1
                         arg = args[1] if len(args) > 1 else None
                         return await body(self, hid, request.method, arg)
+                    def default_framer(self):
+                        # a small anti-DoS limit (public constructor argument), so that a `PT`
+                        # event can also be "more newline-free bytes than the limit": the framer
+                        # then drops the segment and re-synchronises - a connection loss that
+                        # arrives in that state must still end the session
+                        return mods['framing'].NewlineFramer(max_size=PT_LIMIT)
                 if req_timeout is not None:
                     S.sent_request_timeout = req_timeout
             else:
@@ -334,8 +341,14 @@ class World:
             b = {'jsonrpc': '2.0', 'method': 'Q', 'params': [ev[2]], 'id': ev[2]}
             self.tr.feed(json.dumps([a, b]).encode() + b'\n')
         elif k == 'PT':
-            self.tr.feed(b'{"jsonrpc":"2.0","meth' if self.skind == 'rpc'
-                         else self.bframer.frame((b'Q', b'7'))[:13])
+            if self.skind == 'rpc':
+                # bytes that complete no message: alternately half a message and a newline-free
+                # chunk longer than the framer's limit (dropped, the framer re-synchronises)
+                self.pt_count = getattr(self, 'pt_count', 0) + 1
+                self.tr.feed(b'{"jsonrpc":"2.0","meth' if self.pt_count % 2 == 0
+                             else b'{"x":"' + b'y' * (PT_LIMIT + 40))
+            else:
+                self.tr.feed(self.bframer.frame((b'Q', b'7'))[:13])
         elif k == 'GB':
             self.tr.feed(b'\xff\xfe\n' if self.skind == 'rpc' else b'\x00' * 24)
         elif k == 'BC':
